@@ -2037,6 +2037,19 @@ class AxisInterp:
             return v.c, a
         return ax, a
 
+    def _axis_candidates(self, an, env):
+        """Axis names a loop variable may take: the constant elements of the
+        list it iterates (appends included), when resolvable."""
+        if not isinstance(an, ast.Name):
+            return set()
+        v = env.get(an.id)
+        out = set()
+        if v is not None and getattr(v, 'elts', None):
+            for x in v.elts:
+                if getattr(x, 'k', None) == 'axis' and x.ax in (O, S):
+                    out.add(NAMEAX[x.ax])
+        return out
+
     def id_check(self, e, idv, ax, what):
         if idv is None or ax not in (O, S):
             return
@@ -2188,6 +2201,25 @@ class AxisInterp:
                           'ids of axis variable %s are ordered along axis '
                           'variable %s' % (order.c[1], an.id))
             self.id_check(e, order, ax, 'sort_order(order, axis)')
+            if self.qual == 'Table.align_to':
+                # asked to align one axis, only that axis is re-ordered
+                want = dict(kv.split('=', 1) for kv in (self.spec or ''
+                                                        ).split(',')
+                            if '=' in kv).get('axis')
+                if want in NAMEAX.values() and ax in (O, S):
+                    self.sink('ORDER', e, 'align-axis',
+                              'ok' if NAMEAX[ax] == want else 'bad',
+                              'align_to(axis=%r) re-orders the %s axis'
+                              % (want, NAMEAX[ax]))
+                elif want in NAMEAX.values():
+                    av = self.ev(an, env) if an is not None else None
+                    both = av is not None and av.k == 'axis' and \
+                        av.ax is None
+                    self.sink('ORDER', e, 'align-axis',
+                              'bad' if both else 'unknown',
+                              'align_to(axis=%r) walks a list of axes that '
+                              'can hold the other axis as well: an axis '
+                              'that was not asked for is re-ordered' % want)
             if self.qual == 'Table.align_to' and order is not None:
                 # contract of align_to: along every aligned axis the result
                 # follows the order of the table it is aligned to
